@@ -11,6 +11,7 @@ macro_rules! dispatch {
         match $id {
             "C01" => fw::$f::<props::c01::C01>($($arg),*),
             "C04" => fw::$f::<props::c04::C04>($($arg),*),
+            "C05" => fw::$f::<props::c05::C05>($($arg),*),
             "C17" => fw::$f::<props::c17::C17>($($arg),*),
             "C18" => fw::$f::<props::c18::C18>($($arg),*),
             other => {
